@@ -249,18 +249,23 @@ def stepD (d : DState) (toks : List String) : DState × String :=
           | none => (acc.1, acc.2 ++ ["-"])
           | some o => (o.cache, acc.2 ++ [encList (sortOnly (o.res.map (fun e => showVal e.1 e.2)))])) (d.cache, [])
         ({ d with cache := run.1 }, s!"accepted {showId v} cfg={l2t cfg} " ++ " ".intercalate run.2)
-  | ["debug", _mode, vns, vsa, _vpkp, vlabels, vnames, ans, asa, atls, query] =>
+  | ["debug", _mode, vns, vsa, _vpkp, vlabels, vnames, ans, asa, atls, query, vtls, aclaim] =>
     let lbls := (decL vlabels).map fun kv =>
       match split '=' kv with
       | [k, x] => (k, x)
       | _ => (kv, [])
     let vid : Identity := ⟨"cluster.local".toList, s2l vns, s2l vsa⟩
-    let victim : Proxy := { verified := some vid, cluster := "Kubernetes".toList,
-                            refs := some (verifiedRefs (grantEval d.grants) (some vid) (d.gws.filter (attached lbls))) }
+    -- a victim on a plaintext stream has no VerifiedIdentity (and so no secrets)
+    let vver : Option Identity := if tokBool vtls then some vid else none
+    let victim : Proxy := { verified := vver, cluster := "Kubernetes".toList,
+                            refs := some (verifiedRefs (grantEval d.grants) vver (d.gws.filter (attached lbls))) }
     let q : DebugQuery := match query with
       | "sds" => .sds | "full" => .full | "sgdump" => .sgdump | "syncz" => .syncz | "sgsyncz" => .sgsyncz
-      | "api" => .api | _ => .self
-    let asker : Option Identity := if tokBool atls then some ⟨"cluster.local".toList, s2l ans, s2l asa⟩ else none
+      | "api" => .api | "sdscds" => .sdscds | "cds" => .cds | "ndsz" => .ndsz | "edsz" => .edsz | _ => .self
+    -- the asker claims its verified namespace ("same"), no namespace at all ("none": bound by any credential), or
+    -- another one ("other": the connection itself is refused)
+    let aid : Identity := ⟨"cluster.local".toList, s2l ans, s2l asa⟩
+    let asker : Option Identity := if tokBool atls then some aid else none
     let gen := generate d.world d.cache victim (decL vnames) (some ⟨true, []⟩)
     let secrets := match gen with
       | some o => o.res
@@ -268,10 +273,11 @@ def stepD (d : DState) (toks : List String) : DState × String :=
     let d' := match gen with
       | some o => { d with cache := o.cache }
       | none => d
-    let oc := match debugOutcome asker q with
-      | .accepted => "accepted" | .denied => "denied" | .unauthenticated => "unauthenticated"
-    let shown := if debugOutcome asker q == .accepted then debugDump asker q (s2l vns) secrets else []
-    (d', s!"debug {oc} certs={encSet (shown.map String.ofList)} keys=-")
+    if tokBool atls && aclaim == "other" then (d', "debug denied certs=- keys=-")
+    else
+      let oc := match debugOutcome asker q with
+        | .accepted => "accepted" | .denied => "denied" | .unauthenticated => "unauthenticated"
+      (d', s!"debug {oc} certs={encSet ((debugAnswer asker q (s2l vns) secrets).map String.ofList)} keys=-")
   -- stream refs
   | ["rgrant", src, frm, fns, to, name] =>
     let g : RefGrant :=
